@@ -262,10 +262,43 @@ def r13_4(ctx):
     ctx.floor("R13.4", 15)
 
 
+def r13_5(ctx):
+    """A solve restarted at a grid point knows (ts[0] = that point, y, the extras) and nothing else.  It continues
+    bit-identically only if, in the fixed-step loop, each step's interval and inputs are functions of the carried
+    (curr_t, curr_y, curr_extra), the step size and ts[-1] alone -- not of where the solve started (ts[0]) or of any
+    other loop state (a step counter, a flag): `ts[0] + k dt` and `t_k + dt` differ in the last bit."""
+    from . import integrate_kit as ik
+    rep, model = ctx.rep, ctx.model
+    rep.rule("R13.5", "fixed-step loop: step arguments depend only on (curr_t, curr_y, curr_extra, step size, ts[-1]) -- no "
+                      "other loop state and not the start time, so a restart at a grid point continues on the same grid")
+    fi, prologue, for_node, while_node, tail, epilogue = ik.loop_structure(model)
+    rep.analysed(fi)
+    allowed = {("s", "curr_t@head"), ("t", "curr_y@head"), ("t", "curr_extra@head"), ("s", "step_size@head"),
+               ("s", "self.dt"), ("s", "ts[-1]")}
+    n = 0
+    for p in ik.enumerate_paths(model, False, while_node.body):
+        for ta, tb, y, e, node in p.steps:
+            n += 1
+            bad = set()
+            for v in (ta, tb, y, e):
+                for x in (v if isinstance(v, (tuple, list)) else (v,)):
+                    if isinstance(x, Rat):
+                        bad |= {a for a in nf.all_atoms(x) if a[0] in ("s", "t") and a not in allowed}
+            rep.check(not bad, "R13.5", astq.loc(fi, node), f"{fi.key}::R13.5::{p.label()}::{astq.digest(node)}",
+                      f"`{ast.unparse(node)}` on the fixed-step path depends on {sorted(nf.show_atom(a) for a in bad)}: state "
+                      f"that a solve restarted from the returned (time, state, extras) does not have, so the restarted solve "
+                      f"steps on a grid that differs from the one-shot grid (in the last bit already)",
+                      "depends on the restartable state only")
+    if n < 1:
+        raise AnalysisError("R13.5: no self.step call on the fixed-step path")
+    ctx.floor("R13.5", 1)
+
+
 def run(ctx):
     ctx.guard(r13_1)
     ctx.guard(r13_2)
     ctx.guard(r13_4)
+    ctx.guard(r13_5)
     # restart from the *reported* final state: the value reported at a step end must be the solver's own state bit for
     # bit (float-exact reduction of the interpolation formula at its end point; rule of C12)
     from . import c12
